@@ -8,7 +8,7 @@ PROPS['C13'] = dict(
                'any tol >= 8 eps, default / unit / small-integer start vectors and one or two compute() calls. Inside the target: the operator wrapper validates its operand pointers (non-null, disjoint, every element read and written so '
                'ASan checks the ranges) and throws a harness exception beyond 2 + sum 2*ncv*(maxit+1) applications; outcome must be finite results with info() in {Successful, NotConverging} or std::invalid_argument / logic_error / '
                'runtime_error; Eigen index assertions are turned into failures; ASan / UBSan reports are violations. A second mode drives nev_adjusted() through the guarded friend access with drawn zero-estimate / conjugate-pair patterns.',
-    level_note='"Valid, distinct, length-n vectors" is decided as a statement about memory (see DESIGN section 6, C13); NaN operand values are recorded, not asserted. The work bound is enforced where the A-side operator is a counting user functor (the six standard classes, Cholesky and RegularInverse modes); in the generalized shift modes the operator is the library wrapper SymShiftInvert and only the operands handed to the B operator of the user are checked.',
+    level_note='"Valid, distinct, length-n vectors" is decided as a statement about memory (pointer ranges, ASan) and, since every drawn input is finite and the harness operators map finite to finite, also about values: a NaN/Inf operand is a violation (signature nan_operand). The work bound is enforced where the A-side operator is a counting user functor (the six standard classes, Cholesky and RegularInverse modes); in the generalized shift modes the operator is the library wrapper SymShiftInvert and only the operands handed to the B operator of the user are checked.',
     units=[dict(name='c13', src='c13_safety.cpp', flags=SAN, env={'ASAN_OPTIONS': 'abort_on_error=1:detect_leaks=1', 'UBSAN_OPTIONS': 'print_stacktrace=1'}, crash_handler='sanitizer'),
            dict(name='c13_fuzz', src='c13_safety.cpp', cxx='clang++', flags=['-fsanitize=fuzzer,address,undefined', '-fno-sanitize-recover=undefined', '-DVF_LIBFUZZER'], libs=[], tiers=['thorough'])],
     replay_unit='c13',
